@@ -143,8 +143,88 @@ def grid_shapes():
     return out
 
 
-GRID_FROM = len(SHAPES) + 1      # 1-based index of the first grid shape
-SHAPES = SHAPES + grid_shapes()
+DOC = "/// %s"
+ALLOW = "#[allow(dead_code)]"
+
+
+def decorate(shapes):
+    """SOURCE-LEVEL decoration (doc comments, foreign attributes, trailing commas) does not change the
+    declared grammar - the TLA+ data is the same - but the derive macros walk the token stream by hand, so
+    every decoration pattern is a different path through them.  Attributes and docs are placed in front of
+    `#[cli(..)]` (what the derive's own tests do)."""
+    by = {s["name"]: s for s in shapes}
+    by["ReqOpt"]["doc"] = ["Simplest struct"]
+    by["ReqOpt"]["fields"][0]["decor"] = [DOC % "The only field"]
+    f = by["Packaging"]["fields"]
+    f[0]["decor"] = [DOC % "doc on the first field"]
+    f[1]["decor"] = [ALLOW]
+    f[2]["decor"] = [DOC % "two doc lines", DOC % "on the last field", ALLOW]
+    f = by["MultiPos"]["fields"]
+    f[1]["decor"] = [DOC % "doc on the middle positional only"]
+    f = by["MixedPos"]["fields"]
+    f[0]["decor"] = [DOC % "positional with a doc"]
+    f[2]["decor"] = [ALLOW, DOC % "attribute, then doc, then cli"]
+    by["PosUstr"]["fields"][1]["decor"] = [DOC % "doc on the last positional"]
+    # ... and BEHIND `#[cli(..)]` (legal Rust, the declared grammar is the same)
+    by["Aliases"]["fields"][0]["decor_after"] = [DOC % "doc comment behind the cli attribute"]
+    by["Packaging"]["fields"][1]["decor_after"] = [ALLOW]
+    f = by["StrKinds"]["fields"]
+    for x in f:
+        x["decor"] = [DOC % ("every field documented: %s" % x["name"])]
+    by["EnumSub"]["doc"] = ["Doc comment on struct"]
+    by["EnumSub"]["sub"].update(field_decor=[DOC % "Doc comment on field"], enum_doc=["Doc comment on cmd"],
+                                decor={"CmdOne": [DOC % "Doc comment on tag"]})
+    by["Complex"]["doc"] = ["My complex cli tool"]
+    by["Complex"]["fields"][0]["decor"] = [DOC % "Naked field, but has comment"]
+    by["Complex"]["sub"].update(decor={"Run": [DOC % "For running"], "Arg": [DOC % "No comment"]}, trailing=False)
+    by["OptSub"]["sub"].update(decor={"Push": [ALLOW, DOC % "unit variant followed by a documented one"]})
+    by["Nested"]["sub"].update(field_decor_after=[DOC % "doc comment behind #[cli(subcommand)]", ALLOW])
+    for n in range(1, 9):
+        g = by["Grid%d" % n]
+        for j, x in enumerate(g["fields"]):
+            x["decor"] = [[], [DOC % ("field %s" % x["name"])], [ALLOW], [DOC % "doc first", ALLOW, DOC % "doc again"]][(j + n) % 4]
+        if g["sub"]:
+            g["sub"].update(decor={"Load": [DOC % "struct variant after a unit variant"]}, trailing=(n % 2 == 0),
+                            field_decor=[DOC % "the command"])
+
+
+def decor_shapes():
+    """Subcommand enums of four variants: every adjacency (unit|struct variant followed by a variant that
+    is plain | documented | carries a foreign attribute | both), documented first / last / every variant,
+    a unit variant between two struct variants, trailing comma present and absent."""
+    pats = [
+        ("U", "Ud", "Sd", "U", True),
+        ("Ud", "S", "Ua", "Sa", False),
+        ("S", "U", "Uad", "Ud", True),
+        ("U", "Sda", "U", "S", False),
+        ("Ud", "Ud", "Sd", "Ud", True),
+        ("U", "U", "Udd", "Sa", False),
+        ("S", "Ud", "S", "Ua", True),
+    ]
+    names = ["Start", "Stop", "Reload", "Status"]
+    out = []
+    for n, pat in enumerate(pats):
+        tags, decor = [], {}
+        for k, p in enumerate(pat[:4]):
+            tag = names[k]
+            inner = None
+            if p[0] == "S":
+                inner = st("Decor%d%s" % (n + 1, tag), [opt("quiet", "optional", "bool", "bool", short="q")])
+            d = []
+            for ch in p[1:]:
+                d.append(DOC % ("variant %s" % tag) if ch == "d" else ALLOW)
+            if d:
+                decor[tag] = d
+            tags.append((tag, inner))
+        sc = sub("cmd", "Decor%dCmd" % (n + 1), n % 2 == 1, tags)
+        sc.update(decor=decor, trailing=pat[4])
+        out.append(st("Decor%d" % (n + 1), [], sc))
+    return out
+
+
+GRID_FROM = len(SHAPES) + 1      # 1-based index of the first grid shape (smaller bounds from here on)
+SHAPES = SHAPES + grid_shapes() + decor_shapes()
+decorate(SHAPES)
 
 # ---------------------------------------------------------------------------------------------
 # helpers shared by the emitters and by the check
@@ -285,10 +365,14 @@ def emit_rust_struct(s, path, top, out, structs):
                 emit_rust_struct(inner, path + [pascal_to_kebab(tag)], top, out, structs)
     name = s["name"]
     structs.append(name)
+    for d in s.get("doc", []):
+        out.append("/// %s" % d)
     out.append("#[derive(ArgParse)]")
     out.append('#[cli(help_path = "%s")]' % ", ".join(path))
     out.append("pub struct %s {" % name)
     for f in s["fields"]:
+        for d in f.get("decor", []):
+            out.append("    " + d)
         attrs = []
         if f["short"]:
             attrs.append('short = "%s"' % f["short"])
@@ -296,18 +380,29 @@ def emit_rust_struct(s, path, top, out, structs):
             attrs.append('long = "%s"' % f["long"])
         if attrs:
             out.append("    #[cli(%s)]" % ", ".join(attrs))
+        for d in f.get("decor_after", []):
+            out.append("    " + d)
         out.append("    %s: %s," % (f["name"], rust_type(f)))
     if s["sub"]:
         sc = s["sub"]
+        for d in sc.get("field_decor", []):
+            out.append("    " + d)
         out.append("    #[cli(subcommand)]")
+        for d in sc.get("field_decor_after", []):
+            out.append("    " + d)
         out.append("    %s: %s," % (sc["field"], ("Option<%s>" % sc["enum"]) if sc["opt"] else sc["enum"]))
     out.append("}")
     if s["sub"]:
         sc = s["sub"]
+        for d in sc.get("enum_doc", []):
+            out.append("/// %s" % d)
         out.append("#[derive(Subcommand)]")
         out.append("pub enum %s {" % sc["enum"])
-        for tag, inner in sc["tags"]:
-            out.append("    %s%s," % (tag, "(%s)" % inner["name"] if inner else ""))
+        for k, (tag, inner) in enumerate(sc["tags"]):
+            for d in sc.get("decor", {}).get(tag, []):
+                out.append("    " + d)
+            last = k == len(sc["tags"]) - 1
+            out.append("    %s%s%s" % (tag, "(%s)" % inner["name"] if inner else "", "" if last and not sc.get("trailing", True) else ","))
         out.append("}")
         out.append("impl Show for %s {" % sc["enum"])
         out.append("    fn show(&self) -> Value {")
